@@ -48,11 +48,18 @@ def gen_cases(tier, seed):
         yield "arg_types", {"len": r39.VALID_ENT[i % 5], "salt": rng.getrandbits(40)}
     for i in range(80 if q else 2000):
         yield "seed", {"len": rng.choice(r39.VALID_ENT), "salt": rng.getrandbits(40), "pp": i % len(PASSPHRASES), "extra": i // len(PASSPHRASES) % 2}
+    for i in range(10 if q else 100):
+        yield "seed", {"len": r39.VALID_ENT[i % 5], "salt": rng.getrandbits(40), "pp": i % len(PASSPHRASES), "extra": 0, "also_valid_as": ["01", "100", "101", "102", "01"][i % 5]}
+    # last words that have ANOTHER list word as a string suffix within the same checksum block (affair/air, abstract/act, extend/end ..):
+    # the shorter one must be rejected whenever the longer one is the valid last word
+    for ln in r39.VALID_ENT:
+        for rep in range(3 if q else 12):
+            yield "suffix_words", {"len": ln, "salt": rng.getrandbits(40), "rep": rep}
 
 
 def required(tier):
     return {"rt.decided": 700, "invalid_len.refused": 30, "sweep.words": 10000, "sweep.accepted": 200, "mut.decided": 1500,
-            "mut.class.non_list_word": 100, "mut.class.case_variant": 200, "mut.cli_decided": 500, "mut.ref_accepts": 5, "seed.decided": 70, "seed.class.needs_nfkd": 20, "wordlist.pinned": 1, "cli.mnemonics": 35, "argtypes.calls": 15}
+            "mut.class.non_list_word": 100, "mut.class.case_variant": 200, "mut.cli_decided": 500, "mut.ref_accepts": 5, "seed.decided": 70, "seed.class.also_electrum_seed": 6, "suffix.pairs": 6, "seed.class.needs_nfkd": 20, "wordlist.pinned": 1, "cli.mnemonics": 35, "argtypes.calls": 15}
 
 
 def exhaustive(tier, counts):
@@ -157,6 +164,45 @@ def run_case(kind, params, ctx):
                 break
         if len(set(acc_lib.values())) != len(acc_lib):
             ctx.violation(f"to_entropy/not-injective/words{len(base)}", "two accepted sequences map to the same entropy")
+        return
+    if kind == "suffix_words":
+        ln = params["len"]
+        cs_bits = ln * 8 // 32
+        rel = [lambda a, b: a.endswith(b), lambda a, b: a.startswith(b), lambda a, b: b in a][params["rep"] % 3]
+        pairs = [(w, s_) for w in W for s_ in W if w != s_ and rel(w, s_) and IDX[w] >> cs_bits == IDX[s_] >> cs_bits]
+        if not pairs:
+            ctx.count("suffix.no_pairs")
+            return
+        w, s_ = pairs[rng.randrange(len(pairs))]
+        ctx.count(f"suffix.relation.{['endswith', 'startswith', 'contains'][params['rep'] % 3]}")
+        # walk entropies whose last-word entropy bits select w's block until the checksum makes w itself the valid last word
+        import hashlib as _hl
+        ent_bits = 11 - cs_bits
+        hi = rng.getrandbits(ln * 8 - ent_bits)
+        for _ in range(100000):
+            e = (hi << ent_bits) | (IDX[w] >> cs_bits)
+            eb = e.to_bytes(ln, "big")
+            if _hl.sha256(eb).digest()[0] >> (8 - cs_bits) == IDX[w] & ((1 << cs_bits) - 1):
+                break
+            hi = (hi + 1) % (1 << (ln * 8 - ent_bits))
+        else:
+            ctx.count("suffix.grind_failed")
+            return
+        base = r39.mnemonic(eb, W)
+        if base[-1] != w:
+            ctx.oracle_error("suffix_words construction broken")
+            return
+        ctx.count("suffix.pairs")
+        ctx.seen("suffix", (ln, w, s_))
+        ctx.nontrivial()
+        for cls, seq in (("valid", base), ("related_word_in_same_block", base[:-1] + [s_])):
+            mn = " ".join(seq)
+            r = r39.to_entropy(seq, IDX)
+            got, err = _lib_to_entropy(mn)
+            if got is None and r is not None:
+                ctx.violation(f"to_entropy/rejects-valid/{cls}", f"{mn!r}: {type(err).__name__}: {err}")
+            elif got is not None and r is None:
+                ctx.violation(f"to_entropy/accepts-bad-checksum/{cls}", f"{mn!r} accepted ({w!r} is the valid last word, {s_!r} is contained in it)")
         return
     if kind == "word_mutations":
         ent = rand_bytes(rng, params["len"])
@@ -276,6 +322,21 @@ def run_case(kind, params, ctx):
     if kind == "seed":
         ent = rand_bytes(rng, params["len"])
         mn = " ".join(r39.mnemonic(ent, W))
+        if params.get("also_valid_as"):
+            # a BIP39 mnemonic that ALSO passes another wallet's seed-version test (Electrum: HMAC-SHA512("Seed version", phrase)
+            # starts with 01 / 100 / 101 / 102): still a BIP39 mnemonic, still the BIP39 seed.  ~1 in 60 phrases, found by walking the entropy
+            import hmac as _hmac, hashlib as _hl
+            want = params["also_valid_as"]
+            e = int.from_bytes(ent, "big")
+            for _ in range(20000):
+                mn = " ".join(r39.mnemonic(e.to_bytes(params["len"], "big"), W))
+                if _hmac.new(b"Seed version", mn.encode(), _hl.sha512).hexdigest().startswith(want):
+                    break
+                e = (e + 1) % (1 << (8 * params["len"]))
+            else:
+                ctx.count("seed.dual_grind_failed")
+                return
+            ctx.count("seed.class.also_electrum_seed")
         pp = PASSPHRASES[params["pp"]]
         if params["extra"]:
             pp = pp + rand_bytes(rng, 4).hex()
